@@ -31,6 +31,7 @@ func Preamble(m Mode) string {
 	b.WriteString("(assert (forall ((e Iface) (c Int)) (! (=> (and (= (if.dyn e) c) (> c 0)) (errclass e c)) :pattern ((errclass e c)))))\n")
 	b.WriteString("(assert (forall ((e Iface) (c Int)) (! (=> (= (if.dyn e) 0) (not (errclass e c))) :pattern ((errclass e c)))))\n")
 	fmt.Fprintf(&b, "(declare-fun objsize (Int) %s)\n", ix)
+	b.WriteString("(declare-fun objtype (Int) Int)\n")
 	b.WriteString(TheoryPrelude(m))
 	return b.String()
 }
@@ -207,5 +208,27 @@ func decide(o *Obl, file string, timeout time.Duration, stats *SolveStats) {
 	o.Result, o.Solver = best.status, best.solver
 	if best.status == "sat" || best.status == "error" {
 		o.Model = best.out
+	}
+	if o.Result == "unknown" || o.Result == "timeout" {
+		// candidate counterexample: drop the quantified assumptions (weaker context) and ask for a model
+		b, err := os.ReadFile(file)
+		if err == nil {
+			var keep []string
+			for _, ln := range strings.Split(string(b), "\n") {
+				if strings.HasPrefix(ln, "(assert") && strings.Contains(ln, "(forall ") && !strings.HasPrefix(ln, "(assert (not ") {
+					continue
+				}
+				keep = append(keep, ln)
+			}
+			wf := file + ".weak.smt2"
+			os.WriteFile(wf, []byte(strings.Join(keep, "\n")), 0o644)
+			w := runSolver(ctx, Solvers[0], wf, 3*time.Second)
+			record(w)
+			if w.status == "sat" {
+				o.Model = ";; candidate model (quantified assumptions dropped)\n" + w.out
+				o.Candidate = true
+			}
+			os.Remove(wf)
+		}
 	}
 }
